@@ -658,17 +658,30 @@ def _read_member(field: Field, field_type: type[BaseType], stream: BinaryIO, con
 
 
 def _write_member(field: Field, field_type: type[BaseType], stream: BinaryIO, value: Any) -> None:
-    """Write a member of a union, the counterpart of :func:`_read_member`."""
+    """Write a member of a union, the counterpart of :func:`_read_member`.
+
+    The other bits of the storage unit of a bit field are kept as they are in the stream (zero if there is nothing).
+    """
     if not field.bits:
         field_type._write(stream, value)
         return
 
-    bit_buffer = BitBuffer(stream, field_type.cs.endian)
-    if isinstance(field_type, EnumMetaType):
-        bit_buffer.write(field_type.type, getattr(value, "value", value), field.bits)
-    else:
-        bit_buffer.write(field_type, value, field.bits)
+    unit_type = field_type.type if isinstance(field_type, EnumMetaType) else field_type
+    order = "little" if field_type.cs.endian == "<" else "big"
+    position = stream.tell()
+    unit = int.from_bytes(stream.read(unit_type.size).ljust(unit_type.size, b"\x00"), order)
+    stream.seek(position)
+
+    scratch = io.BytesIO()
+    bit_buffer = BitBuffer(scratch, field_type.cs.endian)
+    bit_buffer.write(unit_type, getattr(value, "value", value), field.bits)
     bit_buffer.flush()
+    bits = int.from_bytes(scratch.getvalue(), order)
+
+    mask = (1 << field.bits) - 1
+    if order == "big":
+        mask <<= unit_type.size * 8 - field.bits
+    stream.write(((unit & ~mask) | bits).to_bytes(unit_type.size, order))
 
 
 class Union(Structure, metaclass=UnionMetaType):
